@@ -32,7 +32,7 @@ def modfile_args():
 CONF = {
     "C06": {"needs_cli": True}, "C08": {"needs_cli": True}, "C09": {"needs_cli": True}, "C10": {"needs_cli": True},
     "C01": {"needs_cli": True, "fuzz": [("FuzzRoundTrip", 90), ("FuzzText", 90)]},
-    "C02": {"needs_cli": True, "fuzz": [("FuzzNewick", 60), ("FuzzNexus", 60), ("FuzzPhyloXML", 45), ("FuzzNextstrain", 45)]}, "C03": {}, "C04": {"needs_cli": True}, "C05": {"needs_cli": True}, "C07": {"needs_cli": True},
+    "C02": {"needs_cli": True, "fuzz": [("FuzzNewick", 60), ("FuzzNexus", 60), ("FuzzPhyloXML", 45), ("FuzzNextstrain", 45)]}, "C03": {"needs_cli": True}, "C04": {"needs_cli": True}, "C05": {"needs_cli": True}, "C07": {"needs_cli": True},
     "C11": {"race": True, "shards": (4, 8)},
     "C12": {"needs_cli": True}, "C13": {"needs_cli": True, "fuzz": [("FuzzSingleMulti", 120)]}, "C14": {"needs_cli": True}, "C15": {"needs_cli": True}, "C16": {"needs_cli": True}, "C17": {"needs_cli": True},
     "C18": {"needs_cli": True}, "C19": {"needs_cli": True}, "C20": {"needs_cli": True},
